@@ -7,9 +7,10 @@ import (
 	"verifharness/evid"
 )
 
-// Native fuzz targets (thorough tier only).  Seeds: the genuine objects of the
-// fixed quick worlds.  Oracle: the provenance oracle of evalMutation, applied
-// against every quick world (the input is tried as EF.SOD of each of them).
+// Native fuzz targets (thorough tier only).  Seeds: the genuine objects of
+// three fixed worlds.  Oracle: the provenance oracle of evalMutation, applied
+// against each of those worlds (the input is tried as EF.SOD / master list of
+// every one of them).
 
 // lyingLength mirrors the traversal of gmrtd's tlv.Decode / tlv.Unwrap without
 // allocating and reports whether the input falls into the class of the OPEN
@@ -108,7 +109,7 @@ const c12F7a = "F7a-lying-length-alloc"
 
 func fuzzWorlds(t testing.TB) []*world {
 	var ws []*world
-	for _, s := range quickWorlds {
+	for _, s := range quickWorlds[:3] { // P-256 DER + CardSecurity, RSA-2048 v1/SKI/unsigned attrs/twin store, brainpool explicit indefinite/link store
 		w, err := getWorld(s)
 		if err != nil {
 			t.Fatalf("INFRA: world %s: %v", s.Name, err)
